@@ -143,6 +143,8 @@ func main() {
 			os.Exit(1)
 		}
 		fmt.Println("agree")
+	case "deepnest":
+		deepNestChild(os.Args[2:])
 	case "gen":
 		runGen(os.Args[2:])
 	default:
